@@ -531,6 +531,7 @@ pub fn run(rep: &mut Report, thorough: bool) {
     }
     rep.count("signal_send_errors", sender.send_errors.load(Ordering::SeqCst));
     exited_leader(rep, &mut rng, if thorough { 8 } else { 3 });
+    storm_on_slow_stoppers(rep, &mut rng, if thorough { 40 } else { 6 });
     rep.require("post_state_checks", 20);
     rep.require("destination_faults_hit", 20);
     rep.require("signals_accounted", 20);
@@ -607,4 +608,86 @@ fn exited_leader(rep: &mut Report, rng: &mut Rng, n: usize) {
             rep.violation("C03 thread left stopped after the dump", json!({"case": case, "threads_in_stop_state": stuck}));
         }
     }
+}
+
+
+/// Threads that cannot stop at once (blocked uninterruptibly as the parent of a vfork-style child
+/// for 10-30 ms) make the dumping thread SLEEP in the wait that follows its attach; meanwhile that
+/// thread receives a stream of signals handled without SA_RESTART, so the wait is interrupted for
+/// certain. Whatever the writer does with the interruption, when the dump returns every thread is
+/// untraced, none is stopped, and all of them make progress.
+fn storm_on_slow_stoppers(rep: &mut Report, rng: &mut Rng, n: usize) {
+    for k in 0..n {
+        let mut b = Builder::new();
+        b.sentinel(rng, Mode::Pause, &StackShape::default(), None, None);
+        let first = b.spec.threads.len();
+        b.thread(ThreadKind::VforkWaiter { ms: 10 + 7 * (k as u32 % 3) }, None);
+        b.thread(ThreadKind::VforkWaiter { ms: 25 }, None);
+        b.thread(ThreadKind::Heartbeat, None);
+        let t = match Target::spawn(b.spec.clone(), &b.opts) {
+            Ok(t) => t,
+            Err(e) => {
+                rep.inconclusive(format!("slow-stopper target did not start: {e}"));
+                continue;
+            }
+        };
+        let mut o = DumpOpts::new(t.pid, t.pid);
+        if k % 3 == 2 {
+            o.failspots.push("StopProcess".into());
+        }
+        let before: Vec<u64> = (first..first + 3).map(|i| t.ctl.slot(i, SLOT_HEARTBEAT)).collect();
+        let (out, sent) = {
+            let _g = dump::DUMP_LOCK.lock().unwrap_or_else(|e| e.into_inner());
+            let st = crate::util::Storm::start(80 + 40 * (k as u32 % 3));
+            let out = dump::dump(&o).0;
+            (out, st.stop().0)
+        };
+        let outcome = match &out {
+            Outcome::Ok(_) => "ok".to_string(),
+            Outcome::Err(e) => format!("err: {}", e.chars().take(80).collect::<String>()),
+            Outcome::Panic { location, .. } => format!("panic at {location}"),
+        };
+        rep.case(fnv(format!("slow-stoppers/{k}").as_bytes()), true);
+        rep.count("dumps_of_slow_stoppers_under_tracer_storm", 1);
+        rep.count("tracer_storm_signals_sent_to_the_dumping_thread", sent);
+        rep.count("post_state_checks", 1);
+        let soft = match &out {
+            Outcome::Ok(img) => crate::image::decode(img).soft_errors().unwrap_or(serde_json::Value::Null),
+            _ => serde_json::Value::Null,
+        };
+        let case = json!({"scenario": "threads blocked uninterruptibly (vfork-style) + signals to the dumping thread", "outcome": outcome, "signals_sent_to_dumper": sent, "soft_errors_of_the_dump": soft});
+        let mut all_tids = t.manifest.tids.clone();
+        all_tids.push(t.pid);
+        for tid in &all_tids {
+            if let Some((_, tracer, _, _)) = t.thread_status(*tid) {
+                if tracer != 0 {
+                    rep.violation("C03 thread still ptrace-attached after the dump returned", json!({"case": case, "tid": tid}));
+                }
+            }
+        }
+        let t0 = std::time::Instant::now();
+        let mut stuck: Vec<(i32, char)> = Vec::new();
+        loop {
+            stuck.clear();
+            let mut all = (0..3).all(|j| t.ctl.slot(first + j, SLOT_HEARTBEAT) >= before[j] + 2);
+            for tid in &all_tids {
+                if let Some((st, _, _, _)) = t.thread_status(*tid) {
+                    if st == 't' || st == 'T' {
+                        all = false;
+                        stuck.push((*tid, st));
+                    }
+                }
+            }
+            if all || t0.elapsed().as_secs() > 20 {
+                break;
+            }
+            std::thread::sleep(std::time::Duration::from_micros(300));
+        }
+        if !stuck.is_empty() {
+            rep.violation("C03 thread left stopped after the dump", json!({"case": case, "threads_in_stop_state": stuck}));
+        } else if (0..3).any(|j| t.ctl.slot(first + j, SLOT_HEARTBEAT) < before[j] + 2) {
+            rep.inconclusive(format!("a thread made no progress within 20 s although none is stopped ({case})"));
+        }
+    }
+    rep.require("dumps_of_slow_stoppers_under_tracer_storm", 4);
 }
